@@ -69,7 +69,7 @@ func hGoodFrames() []hFrame {
 		}},
 		{"down-empty", func() lorawan.PHYPayload {
 			return lorawan.PHYPayload{MHDR: lorawan.MHDR{MType: lorawan.UnconfirmedDataDown, Major: lorawan.LoRaWANR1}, MIC: lorawan.MIC{0xA, 0xB, 0xC, 0xD}, MACPayload: &lorawan.MACPayload{
-				FHDR: lorawan.FHDR{DevAddr: lorawan.DevAddr{0xFE, 0xDC, 0xBA, 0x98}, FCtrl: lorawan.FCtrl{FPending: true}, FCnt: 0xFFFF}}}
+				FHDR: lorawan.FHDR{DevAddr: lorawan.DevAddr{0xFE, 0xDC, 0xBA, 0x98}, FCtrl: lorawan.FCtrl{FPending: true, ClassB: true}, FCnt: 0xFFFF}}}
 		}},
 		{"up-port10-33bytes", func() lorawan.PHYPayload {
 			return lorawan.PHYPayload{MHDR: lorawan.MHDR{MType: lorawan.UnconfirmedDataUp, Major: lorawan.LoRaWANR1}, MIC: lorawan.MIC{7, 7, 7, 7}, MACPayload: &lorawan.MACPayload{
@@ -200,7 +200,13 @@ func hFrameOps() []HOp {
 				var p lorawan.PHYPayload
 				err := p.UnmarshalBinary(append([]byte(nil), wire...))
 				hDecodeCommands(&p)
-				return &hDecoded{&p, errS(err)}
+				problem := ""
+				if want := f.mk(); want.MHDR.MType != lorawan.JoinAccept {
+					if a, b := pubPrint(p), pubPrint(want); a != b {
+						problem = fmt.Sprintf("the encoding %x of the frame decodes to a different frame, %s", wire, firstDiff(a, b))
+					}
+				}
+				return &hChecked{&hDecoded{&p, errS(err)}, problem}
 			}},
 			HOp{"decode-text(" + f.name + ")", func(HCtx) interface{} {
 				var p lorawan.PHYPayload
@@ -217,6 +223,36 @@ func hFrameOps() []HOp {
 				err := phy.UnmarshalBinary(append([]byte(nil), wire...))
 				kept := *phy
 				return &hDecoded{&kept, errS(err)}
+			}},
+			HOp{"decode-then-strip-fopts-and-payload(" + f.name + ")", func(HCtx) interface{} {
+				// a received header re-used for an answer: the decoded FCtrl / FHDR values
+				// are copied into a frame without FOpts and without payload
+				var p lorawan.PHYPayload
+				err := p.UnmarshalBinary(append([]byte(nil), wire...))
+				mp, ok := p.MACPayload.(*lorawan.MACPayload)
+				if err != nil || !ok {
+					return []interface{}{"not-a-data-frame"}
+				}
+				q := lorawan.PHYPayload{MHDR: p.MHDR, MIC: p.MIC, MACPayload: &lorawan.MACPayload{FHDR: lorawan.FHDR{DevAddr: mp.FHDR.DevAddr, FCtrl: mp.FHDR.FCtrl, FCnt: mp.FHDR.FCnt}}}
+				mp.FHDR.FOpts, mp.FPort, mp.FRMPayload = nil, nil, nil
+				problem := ""
+				var outs []interface{}
+				for _, fr := range []*lorawan.PHYPayload{&p, &q} {
+					b, err := fr.MarshalBinary()
+					outs = append(outs, b, errS(err))
+					if err != nil {
+						problem = "a decoded header without FOpts and payload is refused: " + err.Error()
+						continue
+					}
+					if len(b) != 12 || b[5]&0x0F != 0 {
+						problem = fmt.Sprintf("a decoded header with FOpts and payload removed encodes to %x (12 bytes with FOptsLen 0 expected)", b)
+					}
+					var back lorawan.PHYPayload
+					if err := back.UnmarshalBinary(b); err != nil {
+						problem = fmt.Sprintf("a decoded header with FOpts and payload removed encodes to %x, which does not decode: %v", b, err)
+					}
+				}
+				return &hChecked{outs, problem}
 			}},
 			HOp{"decode-then-edit(" + f.name + ")", func(HCtx) interface{} {
 				var p lorawan.PHYPayload
